@@ -10,6 +10,7 @@ sys.path.insert(0, VERIF)
 from mirsym.core import *          # noqa
 from mirsym import core as mcore
 from mirsym.models import std_models, I64, in_i64
+from mirsym import models_extra   # noqa: registers further models
 
 ENV = dict(os.environ, CARGO_NET_OFFLINE='true', CARGO_TERM_COLOR='never')
 NCPU = int(os.environ.get('VERIF_JOBS', '0')) or min(16, os.cpu_count() or 4)
@@ -63,7 +64,8 @@ def mir_dump(overflow='on'):
 
 def load_mir(overflow='on'):
     path, th = mir_dump(overflow)
-    pk = os.path.join(CACHE, f'mirp_{overflow}_{th}.pkl')
+    pver = hashlib.sha256(open(os.path.join(VERIF, 'mirsym', 'core.py'), 'rb').read()).hexdigest()[:8]     # parser version
+    pk = os.path.join(CACHE, f'mirp_{overflow}_{th}_{pver}.pkl')
     if os.path.exists(pk):
         try:
             with open(pk, 'rb') as f: return pickle.load(f), th
@@ -413,5 +415,5 @@ def finish(prop, tier, seed, merged, t0, level='model_checking', bounds=None, ou
     print(f'[{prop}] tier={tier} paths={merged["paths"]} obligations={merged["n"]} discharged={merged["discharged"]} confirmed_violations={len(confirmed)} '
           f'(new classes {len(seen_cls)}, known {len(matched)}) inconclusive={len(inconclusive)} solver={merged["solver_time"]:.1f}s wall={wall:.1f}s -> exit {code}')
     if inconclusive and not lines:
-        for i in inconclusive[:8]: print('  INCONCLUSIVE:', i['obligation'], '-', i['reason'][:400])
+        for i in inconclusive[:8]: print('  INCONCLUSIVE:', i['obligation'], '-', i['reason'].split('\n')[0][:300])
     return code
